@@ -178,3 +178,35 @@ def parent_map(root: ast.AST) -> dict[int, ast.AST]:
         for ch in ast.iter_child_nodes(n):
             pm[id(ch)] = n
     return pm
+
+
+def enclosing_tests(func_node: ast.AST, stmt: ast.AST) -> list[tuple[ast.AST, bool]]:
+    """(test, polarity) of every `if`/`while` that syntactically encloses `stmt` inside
+    `func_node`, outermost first: polarity True when `stmt` sits in the body, False in the
+    else part.  Unlike path facts, this is *direct* control: an earlier `if c: raise` does not
+    make (c, False) a guard of everything after it."""
+    out: list[tuple[ast.AST, bool]] = []
+
+    def find(node, acc):
+        for fld in ("body", "orelse", "finalbody"):
+            b = getattr(node, fld, None)
+            if not (isinstance(b, list) and b and isinstance(b[0], ast.stmt)):
+                continue
+            for st in b:
+                acc2 = acc
+                if isinstance(node, (ast.If, ast.While)) and fld in ("body", "orelse"):
+                    acc2 = acc + [(node.test, fld == "body")]
+                if st is stmt:
+                    out.extend(acc2)
+                    return True
+                if isinstance(st, (ast.FunctionDef, ast.AsyncFunctionDef, ast.ClassDef)):
+                    continue
+                if find(st, acc2 if isinstance(node, (ast.If, ast.While)) and fld in ("body", "orelse") else acc):
+                    return True
+        for h in getattr(node, "handlers", []) or []:
+            if find(h, acc):
+                return True
+        return False
+
+    find(func_node, [])
+    return out
